@@ -114,6 +114,18 @@ func VerifReader(half, chunk int, data []byte, ops string) (res string) {
 	var out []string
 	for _, op := range strings.Split(ops, ",") {
 		switch {
+		case op == "N":
+			r, err := in.Next()
+			if err == io.EOF {
+				out = append(out, "E")
+			} else if err != nil {
+				out = append(out, "I")
+			} else {
+				out = append(out, "U"+strconv.Itoa(int(r)))
+			}
+		case op == "R":
+			in.Retract()
+			out = append(out, "-")
 		case op == "n":
 			b, err := in.next()
 			if err == io.EOF {
@@ -206,6 +218,36 @@ def reader_case(rng, n):
     return data, ops
 
 
+BOUNDARY_RUNES = [0x7f, 0x80, 0x7ff, 0x800, 0xd7ff, 0xe000, 0xfffd, 0xffff, 0x10000, 0x10ffff, 0x20ac, 0x3b1, 0x1f600]
+
+
+def rune_case(rng, n):
+    """(text, ops, expected outputs) for the rune-level calls: N = Next, R = Retract of the last rune, l = Lexeme, s = Skip.
+    The expectation is computed here from the text alone (a cursor over its runes). Contract: a Retract gives back a rune
+    read since the last Lexeme/Skip, and the bytes given back and not yet read again fit into one half (4 bytes per rune
+    at most: at most n // 4 runes outstanding)."""
+    k = rng.choice([0, 1, 2, n, 2 * n, 3 * n + 1, rng.randrange(0, 5 * n + 3)])
+    runes = [rng.choice(BOUNDARY_RUNES) if rng.random() < 0.45 else rng.choice([97, 98, 10, 32, rng.randrange(1, 128)]) for _ in range(k)]
+    ops, exp = [], []
+    cur, begin, back, outst = 0, 0, 0, 0
+    for _ in range(rng.choice([k + 2, 2 * k + 4, 3 * k + 6])):
+        c = rng.random()
+        if c < 0.6:
+            ops.append("N")
+            if cur < len(runes):
+                exp.append("U%d" % runes[cur]); cur += 1; back += 1; outst = max(0, outst - 1)
+            else:
+                exp.append("E")
+        elif c < 0.8:
+            if back > 0 and cur > begin and (outst + 1) * 4 <= n:
+                ops.append("R"); exp.append("-"); cur -= 1; back -= 1; outst += 1
+        elif c < 0.92:
+            ops.append("l"); exp.append("L" + ".".join(str(b) for b in "".join(chr(r) for r in runes[begin:cur]).encode())); begin = cur; back = 0
+        else:
+            ops.append("s"); exp.append("-"); begin = cur; back = 0
+    return "".join(chr(r) for r in runes), ops, exp
+
+
 def reader_correspondence(ctx, d, pkg, env, stats, quick):
     """the reader model (Emerge.Reader, about which C19_reader is proved) against the emitted input.go"""
     rd = os.path.join(d, pkg + "rd")
@@ -251,6 +293,35 @@ def reader_correspondence(ctx, d, pkg, env, stats, quick):
             if nc <= 2:
                 ctx.add_broken("correspondence: the reader model (Emerge.Reader) and the emitted input.go disagree", json.dumps(rec)[:1500])
     stats["reader_disagreements"] = stats.get("reader_disagreements", 0) + nc
+    # rune level: Next / Retract / Lexeme / Skip against the model of Next (Reader.nextRune) and against the text itself
+    rlines, rexp = [], []
+    for n in [4, 5, 8, 16, 4096]:
+        for _ in range((40 if quick else 400) if n != 4096 else (3 if quick else 30)):
+            text, ops, exp = rune_case(rng, n)
+            if not ops:
+                continue
+            rlines.append("%d %d %s %s" % (n, rng.choice([0, 1, 3, n + 1]), hx(text.encode()), ",".join(ops)))
+            rexp.append(",".join(exp))
+    p = subprocess.run([os.path.join(d, "bin_reader")], input=("\n".join(rlines) + "\n").encode(), stdout=subprocess.PIPE, stderr=subprocess.PIPE, timeout=600)
+    got = p.stdout.decode().split("\n")[:-1]
+    if p.returncode != 0 or len(got) != len(rlines):
+        ctx.add_violation("the emitted reader crashed under rune-level calls within its contract", {"stderr": p.stderr.decode()[-1500:]})
+        return
+    want = ctx.run_model_par("readernext", [" ".join([l.split(" ")[0]] + l.split(" ")[2:]) for l in rlines])
+    nr = 0
+    for l, g, w, e in zip(rlines, got, want, rexp):
+        stats["reader_rune_sequences"] = stats.get("reader_rune_sequences", 0) + 1
+        n, chunk, hexd, ops = l.split(" ")
+        rec = {"half_size": int(n), "source_read_chunk": int(chunk), "text_hex": hexd if len(hexd) < 400 else hexd[:400] + "…", "calls": ops if len(ops) < 600 else ops[:600] + "…",
+               "emitted_reader": g[:600], "model_of_Next": w[:600], "runes_of_the_text": e[:600]}
+        if g != e:
+            ctx.add_violation("Next/Retract/Lexeme/Skip of the emitted reader do not deliver the runes of the text (and the lexemes between them)", rec)
+            break
+        if g != w:
+            nr += 1
+            if nr <= 2:
+                ctx.add_broken("correspondence: the model of Next (Reader.nextRune) and the emitted input.go disagree", json.dumps(rec)[:1500])
+    stats["reader_rune_disagreements"] = stats.get("reader_rune_disagreements", 0) + nr
 
 
 TOKNAMES = ["ID", "NUM", "KW", "OP", "WS", "EOL", "COMMENT", "STR", "AB"]
